@@ -215,55 +215,62 @@ func main() {
 	}
 
 	depth := r.Pick(5, 7)
-	var states, transitions int64
-	for _, rl := range []bool{false, true} {
-		st, tr, md, fix := bfs(r, rl, depth)
-		states += st
-		transitions += tr
-		r.Note("history search rocksLike=%v: states=%d transitions=%d max_depth=%d fixpoint=%v (depth bound %d)", rl, st, tr, md, fix, depth)
-		if !fix {
-			r.Set("history_depth_bound_hit", true)
-		}
-	}
-	r.Set("history_states", states)
-	r.Set("history_transitions", transitions)
-
 	bound := r.Pick(2, 3)
-	var execs, steps int64
-	outcomes := map[string]bool{}
-	for _, sc := range scenarios {
-		sc := sc
-		var curCheck func(*vsched.Result) []string
-		st := vsched.Explore(vsched.Config{Bound: bound, MaxSteps: 5000}, func() (func(), func(*vsched.Result)) {
-			body, check, _ := runScenario(sc)
-			curCheck = check
-			return body, func(res *vsched.Result) {
-				bad := curCheck(res)
-				outcomes[sc.name+":"+strings.Join(bad, "+")] = true
-				if len(bad) > 0 {
-					fp := fmt.Sprintf("sched/%s/%s", sc.name, strings.Join(bad, "+"))
-					if !r.Has(fp) {
-						body2, _, _ := runScenario(sc)
-						lr := vsched.RunOnce(vsched.Config{LogEvents: true, MaxSteps: 5000}, res.Choices, body2)
-						r.Violate(fp, fmt.Sprintf("scenario %s: %v (choices %v)", sc.name, bad, res.Choices),
-							map[string]interface{}{"part": "schedule", "scenario": sc.name, "choices": res.Choices, "events": lr.EventLog()})
+	// work units: 0,1 = history search (CDB-like, RocksDB-like backends); 2.. = one schedule scenario each
+	const K = 1 // each scenario's choice tree is split into K shards at its top level
+	nUnits := 2 + K*len(scenarios)
+	idx, n, isShard := r.Shard()
+	if !isShard {
+		r.ForkShards(nUnits)
+	} else {
+		for u := idx; u < nUnits; u += n {
+			if u < 2 {
+				rl := u == 1
+				st, tr, md, fix := bfs(r, rl, depth)
+				r.Add("history_states", st)
+				r.Add("history_transitions", tr)
+				r.Note("history search rocksLike=%v: states=%d transitions=%d max_depth=%d fixpoint=%v (depth bound %d)", rl, st, tr, md, fix, depth)
+				continue
+			}
+			sc := scenarios[(u-2)/K]
+			outcomes := map[string]bool{}
+			var curCheck func(*vsched.Result) []string
+			st := vsched.Explore(vsched.Config{Bound: bound, MaxSteps: 5000, Shard: (u - 2) % K, NShards: K}, func() (func(), func(*vsched.Result)) {
+				body, check, _ := runScenario(sc)
+				curCheck = check
+				return body, func(res *vsched.Result) {
+					bad := curCheck(res)
+					outcomes[strings.Join(bad, "+")] = true
+					if len(bad) > 0 {
+						fp := fmt.Sprintf("sched/%s/%s", sc.name, strings.Join(bad, "+"))
+						if !r.Has(fp) {
+							body2, _, _ := runScenario(sc)
+							lr := vsched.RunOnce(vsched.Config{LogEvents: true, MaxSteps: 5000}, res.Choices, body2)
+							r.Violate(fp, fmt.Sprintf("scenario %s: %v (choices %v)", sc.name, bad, res.Choices),
+								map[string]interface{}{"part": "schedule", "scenario": sc.name, "choices": res.Choices, "events": lr.EventLog()})
+						}
 					}
 				}
+			})
+			r.Add("schedule_executions", st.Execs)
+			r.Add("schedule_steps", st.Transitions)
+			r.Add("schedule_pruned_subtrees", st.Pruned)
+			r.Add("schedule_distinct_states", st.States)
+			r.Add("schedule_distinct_outcomes", int64(len(outcomes)))
+			if st.Capped || st.BoundCompleted < bound {
+				r.Exhaustive = false
 			}
-		})
-		execs += st.Execs
-		steps += st.Transitions
-		r.Note("scenario %q: executions=%d pruned_subtrees=%d distinct_states=%d steps=%d bound_completed=%d max_choice_points=%d", sc.name, st.Execs, st.Pruned, st.States, st.Transitions, st.BoundCompleted, st.MaxPoints)
-		if os.Getenv("VERIF_DEBUG") != "" {
-			fmt.Fprintf(os.Stderr, "scenario %q: %+v\n", sc.name, st)
+			r.Note("scenario %q shard %d/%d: executions=%d pruned_subtrees=%d distinct_states=%d steps=%d bound_completed=%d max_choice_points=%d", sc.name, (u-2)%K, K, st.Execs, st.Pruned, st.States, st.Transitions, st.BoundCompleted, st.MaxPoints)
+			if (u-2)%K == 0 {
+				r.Sample(map[string]interface{}{"scenario": sc.name, "threads": sc.threads, "pre": sc.pre, "env": sc.env, "executions": st.Execs})
+			}
 		}
-		r.Sample(map[string]interface{}{"scenario": sc.name, "threads": sc.threads, "pre": sc.pre, "env": sc.env, "executions": st.Execs})
+		r.Finish()
 	}
-	r.Set("schedule_executions", execs)
-	r.Set("schedule_steps", steps)
+	states, transitions := r.Int("history_states"), r.Int("history_transitions")
+	execs, steps := r.Int("schedule_executions"), r.Int("schedule_steps")
 	r.Set("schedule_preemption_bound", bound)
-	r.Set("schedule_distinct_outcomes", len(outcomes))
-	r.Set("states", states)
+	r.Set("states", states+r.Int("schedule_distinct_states"))
 	r.Set("transitions", transitions+steps)
 	r.Set("traces_validated_against_impl", transitions+execs)
 	r.Set("evaluations", transitions+execs)
